@@ -4,7 +4,9 @@
     sched.blocks <start y-m-d> <enc>                      -> n|t0,t1,..|kw,kw|kw|...   | err
     sched.rblocks <start y-m-d> <rstep> <rtime> <skiprest 0|1> <enc>
                                                           -> the same for a restarted run | err
-    sched.obs <k> <consts> <start> <enc>                  -> observation of state k | none | err
+    sched.obs <k> <consts> <start> <enc>                  -> observation of state k (`showFull`: wells with
+                                                             order and connection sequence, groups, registries,
+                                                             marker, status-change events) | none | err
     sched.apply <k> <consts> <start> <enc> <apps>         -> observation of state k after applying
                                                              <apps> = n:action:W1/W2,... in order
     sched.inline <consts> <start> <enc> <apps>            -> the inlined schedule re-encoded (model side only)
@@ -126,6 +128,14 @@ def modelled : List String :=
   ["WELSPECS", "COMPDAT", "COMPLUMP", "WPIMULT", "WCONPROD", "WCONINJE", "WCONHIST", "WCONINJH", "WHISTCTL", "WELOPEN",
    "WELTARG", "WEFAC", "WECON", "WTEST", "WLIST", "GRUPTREE", "GEFAC", "GCONPROD", "GCONINJE", "NEXTSTEP", "UDQ"]
 
+def parseOrder (s : String) : Option Nat :=
+  if s = "TRACK" then some 0 else if s = "DEPTH" then some 1 else if s = "INPUT" then some 2 else none
+
+def parseCompord (r : String) : Option (String × Nat) :=
+  match r.splitOn "," with
+  | [p, o] => (parseOrder o).map fun x => (p, x)
+  | _ => none
+
 def parseKw (s : String) : Option (Kw CKw) :=
   match s.splitOn "=" with
   | [name, body] =>
@@ -135,6 +145,7 @@ def parseKw (s : String) : Option (Kw CKw) :=
     else if name = "SCHEDULE" then some .schedule
     else if name = "ACTIONX" then some (.other (.actionx body))
     else if name = "ENDACTIO" then some (.other .endactio)
+    else if name = "COMPORD" then (allSome (recs.map parseCompord)).map fun rs => .other (.compord rs)
     else if modelled.contains name then
       (allSome (recs.map fun r => parseROp name (r.splitOn ","))).map fun rs => .other (.ops name rs)
     else some (.other (.ops name []))
@@ -207,9 +218,18 @@ def statusCode : Status → Nat
 
 def connKey (c : Conn) : Nat := (c.i * 100000 + c.j) * 100000 + c.k
 
-def showConns (cs : List Conn) : String :=
-  "/".intercalate ((cs.mergeSort fun a b => connKey a ≤ connKey b).map fun c =>
+/-- The connections in the well's own sequence (`WellConnections::begin() .. end()`) when
+`seq`, else sorted by cell. -/
+def showConns (seq : Bool) (cs : List Conn) : String :=
+  "/".intercalate ((if seq then cs else cs.mergeSort fun a b => connKey a ≤ connKey b).map fun c =>
     s!"{c.i}.{c.j}.{c.k}.{c.state}.{c.complnum}.{evalVal c.pimult}")
+
+/-- The sequence is part of the record unless the well's head was moved (the head the
+`WellConnections` object orders by is then history dependent) or a DEPTH-ordered well has more
+than 16 connections (`std::sort` is then not the stable insertion the model uses). -/
+def seqObserved (w : WellP) (cs : List Conn) : Bool := !w.moved && !(w.order == 1 && cs.length > 16)
+
+def orderName (o : Nat) : String := if o = 0 then "TRACK" else if o = 1 then "DEPTH" else "INPUT"
 
 def b01 (b : Bool) : String := if b then "1" else "0"
 
@@ -220,11 +240,11 @@ def showWellCore (status : Nat) (conns : String) (nw : String × WellP) : String
   let ps := s!"P({p.cmode},{p.ctrl},{b01 p.pred},{evalVal p.orat},{evalVal p.wrat},{evalVal p.grat},{evalVal p.lrat},{evalVal p.resv},{evalVal p.bhp},{evalVal p.bhpLim},{b01 p.bhpLimDef},{evalVal p.bhph},{p.whist})"
   let is := s!"I({i.itype},{i.cmode},{i.ctrl},{b01 i.pred},{evalVal i.rate},{evalVal i.resv},{evalVal i.bhp},{evalVal i.bhpLim},{evalVal i.bhph})"
   let es := s!"E({evalVal w.econ.1},{evalVal w.econ.2.1},{w.econ.2.2})"
-  s!"W:{n},{w.group},{status},{if w.producer then "P" else "I"},{b01 w.wpred},{w.headI}.{w.headJ},{ps},{is},{evalVal w.efac},{es},{conns}"
+  s!"W:{n},{w.group},{status},{if w.producer then "P" else "I"},{b01 w.wpred},{w.headI}.{w.headJ},{ps},{is},{evalVal w.efac},{es},{orderName w.order},{conns}"
 
 /-- A well's line: its properties, its status (`statusOf`) and its connections. -/
 def showWell (s : State) (nw : String × WellP) : String :=
-  showWellCore (statusCode (statusOf s.st nw.1)) (showConns (connsOf s.c.m nw.1)) nw
+  showWellCore (statusCode (statusOf s.st nw.1)) (showConns (seqObserved nw.2 (connsOf s.c.m nw.1)) (connsOf s.c.m nw.1)) nw
 
 def showGInj (g : GroupP) : String :=
   "/".intercalate (["WATER", "GAS", "OIL"].filterMap fun ph =>
@@ -239,6 +259,7 @@ def kwName : CKw → String
   | .ops n _ => n
   | .actionx _ => "ACTIONX"
   | .endactio => "ENDACTIO"
+  | .compord _ => "COMPORD"
 
 def sortByKey {α} (m : List (String × α)) : List (String × α) := m.mergeSort fun a b => a.1 ≤ b.1
 
@@ -259,6 +280,13 @@ def showState (s : State) : String :=
   ";".intercalate (s.p.wells.map (showWell s) ++ s.p.groups.map showGroup ++
     [s!"A:{"/".intercalate acts}", s!"M:{"/".intercalate marks}", s!"L:{"/".intercalate lists}", s!"T:{"/".intercalate tests}",
      s!"U:{"/".intercalate udqs}", s!"N:{ns}", s!"H:{s.p.whistctl}"])
+
+/-- The wells carrying WELL_STATUS_CHANGE at this report step, in well order. -/
+def showEv (s : State) : String :=
+  s!"X:{"/".intercalate ((names s.p.wells).filter fun w => s.ev.contains w)}"
+
+/-- The full observation record: `showState` plus the status-change events. -/
+def showFull (s : State) : String := showState s ++ ";" ++ showEv s
 
 def showBlocks (bs : List (Block CKw)) : String :=
   let times := ",".intercalate (bs.map fun b => toString (b.start / 1000))
@@ -291,7 +319,7 @@ def showAt (r : Except Err (List State)) (k : Nat) : String :=
   | .error .unsupported => "unsupported"
   | .ok ss => match ss[k]? with
     | none => "none"
-    | some s => showState s
+    | some s => showFull s
 
 def handleOp (op : String) (args : List String) : String :=
   match op, args with
